@@ -2957,10 +2957,21 @@ func (d *Document) serializeRelationships() {
 
 // serializeDocumentRelationships 序列化文档关系
 func (d *Document) serializeDocumentRelationships() {
+	// styles.xml 的关系通常是 rId1。打开的文档可能已经把 rId1 用于其他关系（例如图片，
+	// 而它的 styles 关系使用了别的ID并在解析时被过滤掉），此时必须为 styles 选择一个未被
+	// 占用的ID，否则保存的关系文件里会出现两个 rId1，图片的 r:embed 将无法唯一解析。
+	stylesID := "rId1"
+	for i := range d.documentRelationships.Relationships {
+		if d.documentRelationships.Relationships[i].ID == stylesID {
+			stylesID = d.nextDocumentRelationshipID()
+			break
+		}
+	}
+
 	// 获取已存在的关系，从索引1开始（保留给styles.xml）
 	relationships := []Relationship{
 		{
-			ID:     "rId1",
+			ID:     stylesID,
 			Type:   "http://schemas.openxmlformats.org/officeDocument/2006/relationships/styles",
 			Target: "styles.xml",
 		},
